@@ -1,10 +1,434 @@
 /-
   Proofs for C10D (3): the model reads the expansion of a flattened expanded document (`JL.writeFlat`)
-  back as the dataset itself.
+  back as the dataset itself, by symbolic evaluation of the model on the shapes `expandFlat` produces.
 -/
 import RdfModel.Props.C10DDefs
 import RdfModel.Props.C10Defs
+import RdfModel.Proofs.C10Flat
 namespace RdfModel.Proofs.C10D
 open RdfModel RdfModel.Desc RdfModel.JLD RdfModel.C10D
+
+/-! ### strings: what `JL.absIri` / `JL.langOK` give the decoder's filters -/
+
+theorem wfIriGo_spec : ∀ (v : Str) (colon frag : Bool), v.all JL.iriCharOK = true →
+    (v.filter (· == 0x23)).length + (if frag then 1 else 0) ≤ 1 →
+    wfIriGo colon frag v = (colon || v.contains 0x3a)
+  | [], colon, frag, _, _ => by simp [wfIriGo]
+  | c :: cs, colon, frag, hall, hcnt => by
+    simp only [List.all_cons, Bool.and_eq_true] at hall
+    have hc := hall.1
+    simp only [JL.iriCharOK, Bool.and_eq_true, decide_eq_true_eq, Bool.not_eq_true', List.contains_eq_mem,
+      List.mem_cons, List.not_mem_nil, or_false, not_or, decide_eq_false_iff_not] at hc
+    have h1 : ¬ c < 0x20 := by omega
+    have h2 : [0x20, 0x3c, 0x3e, 0x22, 0x7b, 0x7d, 0x7c, 0x5c, 0x5e, 0x60].contains c = false := by
+      simp only [List.contains_eq_mem, List.mem_cons, List.not_mem_nil, or_false, decide_eq_false_iff_not, not_or]
+      refine ⟨by omega, ?_⟩
+      exact ⟨hc.2.1, hc.2.2.1, hc.2.2.2.1, hc.2.2.2.2.1, hc.2.2.2.2.2.1, hc.2.2.2.2.2.2.1, hc.2.2.2.2.2.2.2.1, hc.2.2.2.2.2.2.2.2.1, hc.2.2.2.2.2.2.2.2.2⟩
+    rw [wfIriGo, if_neg h1, h2]
+    simp only [Bool.false_eq_true, if_false]
+    by_cases e1 : c = 0x3a
+    · subst e1
+      have hf : ((0x3a : Nat) == 0x23) = false := by decide
+      simp only [List.filter_cons, hf, Bool.false_eq_true, if_false] at hcnt
+      rw [if_pos rfl, wfIriGo_spec cs true frag hall.2 hcnt]
+      simp
+    · rw [if_neg e1]
+      by_cases e2 : c = 0x23
+      · subst e2
+        simp only [List.filter_cons, beq_self_eq_true, if_true, List.length_cons] at hcnt
+        have hfr : frag = false := by
+          cases frag with
+          | false => rfl
+          | true => simp at hcnt
+        subst hfr
+        simp only [if_true, Bool.false_eq_true, if_false]
+        rw [wfIriGo_spec cs colon true hall.2 (by simp at hcnt ⊢; omega)]
+        simp
+      · rw [if_neg e2]
+        have hf : (c == 0x23) = false := by simpa using e2
+        simp only [List.filter_cons, hf, Bool.false_eq_true, if_false] at hcnt
+        rw [wfIriGo_spec cs colon frag hall.2 hcnt]
+        have : ¬ (0x3a = c) := fun h => e1 h.symm
+        simp [this]
+
+theorem abs_wf {v : Str} (h : JL.absIri v = true) : isWellFormedIRI v = true := by
+  unfold JL.absIri at h
+  cases hs : JL.splitColon v with
+  | none => simp [hs] at h
+  | some r =>
+    obtain ⟨p, s⟩ := r
+    simp only [hs, Bool.and_eq_true, decide_eq_true_eq] at h
+    have hv := Proofs.C10.splitColon_eq hs
+    unfold isWellFormedIRI
+    rw [wfIriGo_spec v false false h.1.2 (by simpa using h.2)]
+    rw [hv]
+    simp [JL.cColon]
+
+/-- an absolute IRI starts with a letter -/
+theorem abs_head {v : Str} (h : JL.absIri v = true) : ∃ a r, v = a :: r ∧ JL.isAlpha a = true := by
+  obtain ⟨a, rest, s, hv, ha, _, _⟩ := Proofs.C10.absIri_shape h
+  exact ⟨a, _, hv, ha⟩
+
+theorem alpha_ne {a : Nat} (h : JL.isAlpha a = true) : a ≠ 0x40 ∧ a ≠ 0x5f := by
+  simp only [JL.isAlpha, Bool.or_eq_true, Bool.and_eq_true, decide_eq_true_eq] at h
+  omega
+
+theorem abs_not_at {v : Str} (h : JL.absIri v = true) : isAtKey v = false := by
+  obtain ⟨a, r, rfl, ha⟩ := abs_head h
+  have := (alpha_ne ha).1
+  cases r <;> simp [isAtKey, this]
+
+theorem abs_not_bnode {v : Str} (h : JL.absIri v = true) : hasBnodePrefix v = false ∧ isBnodeLong v = false := by
+  obtain ⟨a, r, rfl, ha⟩ := abs_head h
+  have := (alpha_ne ha).2
+  constructor
+  · cases r with
+    | nil => simp [hasBnodePrefix]
+    | cons b r' => simp [hasBnodePrefix, this]
+  · cases r with
+    | nil => simp [isBnodeLong]
+    | cons b r' => cases r' <;> simp [isBnodeLong, this]
+
+/-- an absolute IRI is none of the decoder's keywords -/
+theorem abs_ne_kw {v k : Str} (h : JL.absIri v = true) (hk : k.head? = some 0x40) : v ≠ k := by
+  obtain ⟨a, r, rfl, ha⟩ := abs_head h
+  intro e
+  subst e
+  simp only [List.head?_cons, Option.some.injEq] at hk
+  exact (alpha_ne ha).1 hk
+
+theorem abs_keyProp {v : Str} (h : JL.absIri v = true) : keyProp v = some (some v) := by
+  simp [keyProp, abs_not_at h, (abs_not_bnode h).2, abs_wf h]
+
+theorem subtags_wf : ∀ (l : Str) (first : Bool) (k : Nat), JL.subtagsOK first k l = true →
+    (l ≠ [] ∨ 0 < k) ∧ l.contains 0x20 = false
+  | [], first, k, h => by
+    simp only [JL.subtagsOK, decide_eq_true_eq] at h
+    exact ⟨Or.inr h, by simp⟩
+  | c :: cs, first, k, h => by
+    rw [JL.subtagsOK] at h
+    refine ⟨Or.inl (by simp), ?_⟩
+    split at h
+    · rename_i hc
+      simp only [Bool.and_eq_true, decide_eq_true_eq] at h
+      have := (subtags_wf cs false 0 h.2).2
+      subst hc
+      simpa using this
+    · simp only [Bool.and_eq_true, Bool.or_eq_true, decide_eq_true_eq] at h
+      have := (subtags_wf cs first (k + 1) h.2).2
+      have hc : c ≠ 0x20 := by
+        rcases h.1.1 with ha | ha
+        · simp only [JL.isAlpha, Bool.or_eq_true, Bool.and_eq_true, decide_eq_true_eq] at ha; omega
+        · simp only [JL.isDigit, Bool.and_eq_true, Bool.not_eq_true', decide_eq_true_eq] at ha; omega
+      have hc' : ¬ (0x20 = c) := fun e => hc e.symm
+      simpa [hc'] using this
+
+theorem langOK_wf {l : Str} (h : JL.langOK l = true) : isWellFormedLang l = true := by
+  have := subtags_wf l true 0 h
+  have hne : l ≠ [] := by
+    rcases this.1 with h1 | h1
+    · exact h1
+    · omega
+  have h2 := this.2
+  simp only [List.contains_eq_mem, decide_eq_false_iff_not] at h2
+  simp [isWellFormedLang, hne, h2]
+
+/-! ### stages that find nothing -/
+
+def noKey (k : Str) (ms : List (Str × Exp)) : Prop := ∀ m ∈ ms, m.1 ≠ k
+
+theorem noKey_nil (k : Str) : noKey k [] := by intro m hm; simp at hm
+theorem noKey_cons {k k' : Str} {v : Exp} {ms : List (Str × Exp)} (h : k' ≠ k) (hr : noKey k ms) : noKey k ((k', v) :: ms) := by
+  intro m hm
+  rcases List.mem_cons.1 hm with rfl | hm
+  · exact h
+  · exact hr m hm
+theorem noKey_tail {k k' : Str} {v : Exp} {ms : List (Str × Exp)} (h : noKey k ((k', v) :: ms)) : k' ≠ k ∧ noKey k ms :=
+  ⟨h (k', v) (by simp), fun m hm => h m (by simp [hm])⟩
+
+theorem lookup_noKey {k : Str} : ∀ {ms : List (Str × Exp)}, noKey k ms → JLD.lookup k ms = none
+  | [], _ => rfl
+  | (k', v) :: ms, h => by
+    have := noKey_tail h
+    rw [JLD.lookup, if_neg this.1]
+    exact lookup_noKey this.2
+
+theorem hasKey_noKey {k : Str} {ms : List (Str × Exp)} (h : noKey k ms) : hasKey k ms = false := by
+  unfold hasKey
+  rw [Bool.eq_false_iff]
+  intro hc
+  simp only [List.any_eq_true, beq_iff_eq] at hc
+  obtain ⟨m, hm, e⟩ := hc
+  exact h m hm e
+
+theorem findReverse_noKey (cfg : Cfg) (c : ECtx) : ∀ (ms : List (Str × Exp)) (n : Nat), noKey kReverse ms →
+    findReverse cfg c ms n = .ok [] n
+  | [], n, _ => by rw [findReverse]
+  | (k, v) :: rest, n, h => by
+    have hk := (noKey_tail h).1
+    have ih := findReverse_noKey cfg c rest n (noKey_tail h).2
+    cases v <;> (rw [findReverse, if_neg hk] <;> first | exact ih | simp)
+
+theorem findKeyArr_noKey (cfg : Cfg) (c : ECtx) (key : Str) : ∀ (ms : List (Str × Exp)) (n : Nat), noKey key ms →
+    findKeyArr cfg c key ms n = .ok [] n
+  | [], n, _ => by rw [findKeyArr]
+  | (k, v) :: rest, n, h => by
+    have hk := (noKey_tail h).1
+    have ih := findKeyArr_noKey cfg c key rest n (noKey_tail h).2
+    cases v <;> (rw [findKeyArr, if_neg hk] <;> first | exact ih | simp)
+
+theorem typeStage_noKey (g : Option T) (s : T) (ms : List (Str × Exp)) (n : Nat) (h : noKey kType ms) :
+    typeStage g s ms n = .ok [] n := by
+  unfold typeStage
+  rw [lookup_noKey h]
+
+theorem andThen_ok_nil (n : Nat) (f : Nat → R) : (R.ok [] n).andThen f = f n := by
+  simp only [R.andThen]
+  cases f n <;> simp
+
+theorem andThen_ok_right (qs : List RQ) (n : Nat) : (R.ok qs n).andThen (fun n1 => R.ok [] n1) = R.ok qs n := by
+  simp [R.andThen]
+
+/-! ### values of the flat sub-language -/
+
+variable {β : Type}
+
+/-- the term of the result -/
+def outT (name : β → Str) (t : Term β) : T := t.map (fun b => BN.orig (name b))
+
+/-- `{"@id": id}` as a value: a node reference, nothing else -/
+theorem decode_ref (cfg : Cfg) (g s : Option T) (p id : Str) (self : T) (n : Nat)
+    (hself : ∀ m, selfSubject [(kId, primStr id)] m = .ok (some (self, m))) :
+    decodeElement cfg { graph := g, subj := s, prop := some p, rev := false } (.obj [(kId, primStr id)]) n =
+      .ok [⟨s, p, some self, g⟩] n := by
+  have nk : ∀ k, kId ≠ k → noKey k [(kId, primStr id)] := fun k hk => noKey_cons hk (noKey_nil k)
+  rw [decodeElement]
+  have h1 : hasKey kValue [(kId, primStr id)] = false := hasKey_noKey (nk _ (by decide))
+  have h2 : hasKey kList [(kId, primStr id)] = false := hasKey_noKey (nk _ (by decide))
+  simp only [h1, h2, Bool.false_eq_true, if_false, hself n]
+  rw [findReverse_noKey cfg _ _ _ (nk _ (by decide)), andThen_ok_nil,
+    typeStage_noKey _ _ _ _ (nk _ (by decide)), andThen_ok_nil]
+  have h3 : ∀ c m, findKeyArr cfg c kGraph [(kId, primStr id)] m = .ok [] m := fun c m => findKeyArr_noKey cfg c _ _ m (nk _ (by decide))
+  have h4 : ∀ c m, findKeyArr cfg c kIncluded [(kId, primStr id)] m = .ok [] m := fun c m => findKeyArr_noKey cfg c _ _ m (nk _ (by decide))
+  have h5 : ∀ c m, members cfg c [(kId, primStr id)] m = .ok [] m := by
+    intro c m
+    have hk : keyProp kId = none := by decide
+    rw [primStr, members] <;> simp [hk, members]
+  simp only [h3, h4, h5, ite_self, andThen_ok_nil, R.pre, List.append_nil, Option.isNone_some, Bool.and_false]
+
+theorem decodeValuePrim_str (cfg : Cfg) (g s : Option T) (p dt0 lex : Str) (aL aD : Option Exp) (jt : JText) (n : Nat)
+    (h : dt0 ≠ kJson) :
+    decodeValuePrim cfg g s p dt0 aL aD (.str lex) jt n = decodeStringValue cfg g s p dt0 lex aL aD n := by
+  unfold decodeValuePrim
+  simp only []
+  rw [if_neg h]
+
+theorem decode_typed (cfg : Cfg) (g s : Option T) (p dt lex : Str) (n : Nat) (hdt : JL.absIri dt = true)
+    (h1 : dt ≠ rdfLangString) (h2 : dt ≠ rdfDirLangString) :
+    decodeElement cfg { graph := g, subj := s, prop := some p, rev := false }
+        (.obj [(kType, primStr dt), (kValue, primStr lex)]) n =
+      .ok [⟨s, p, some (.lit lex dt none), g⟩] n := by
+  have hv : hasKey kValue [(kType, primStr dt), (kValue, primStr lex)] = true := by simp [hasKey]
+  have hne : dt ≠ [] := by
+    obtain ⟨a, r, rfl, _⟩ := abs_head hdt; simp
+  have hj : dt ≠ kJson := abs_ne_kw hdt (by decide)
+  have c1 : kType ≠ kValue := by decide
+  have c2 : kType ≠ kLanguage := by decide
+  have c3 : kValue ≠ kLanguage := by decide
+  have c4 : kType ≠ kDirection := by decide
+  have c5 : kValue ≠ kDirection := by decide
+  rw [decodeElement]
+  simp only [hv, if_true]
+  simp [decodeValueNode, JLD.lookup, expandedString, primStr, h1, h2, c1, c2, c3, c4, c5, decodeValuePrim_str, hj,
+    decodeStringValue, hne, lit]
+
+theorem decode_lang (cfg : Cfg) (g s : Option T) (p l lex : Str) (n : Nat) (hl : isWellFormedLang l = true) :
+    decodeElement cfg { graph := g, subj := s, prop := some p, rev := false }
+        (.obj [(kLanguage, primStr l), (kValue, primStr lex)]) n =
+      .ok [⟨s, p, some (.lit lex rdfLangString (some l)), g⟩] n := by
+  have hv : hasKey kValue [(kLanguage, primStr l), (kValue, primStr lex)] = true := by simp [hasKey]
+  have c1 : kLanguage ≠ kType := by decide
+  have c2 : kValue ≠ kType := by decide
+  have c3 : kLanguage ≠ kValue := by decide
+  have c4 : kLanguage ≠ kDirection := by decide
+  have c5 : kValue ≠ kDirection := by decide
+  have d1 : ([] : Str) ≠ rdfLangString := by decide
+  have d2 : ([] : Str) ≠ rdfDirLangString := by decide
+  have d3 : ([] : Str) ≠ kJson := by decide
+  have d4 : rdfLangString ≠ [] := by decide
+  rw [decodeElement]
+  simp only [hv, if_true]
+  simp [decodeValueNode, JLD.lookup, expandedString, primStr, c1, c2, c3, c4, c5, d1, d2, d3, d4, decodeValuePrim_str,
+    decodeStringValue, tagOf, langBad, dirBad, hl, taggedString, lit, Except.map]
+
+/-! ### node objects of the flat sub-language -/
+
+theorem selfSubject_of_lookup {ms : List (Str × Exp)} {id : Str} (n : Nat) (h : JLD.lookup kId ms = some (primStr id)) :
+    selfSubject ms n =
+      (if hasBnodePrefix id then .ok (some (stringBlankNode (id.drop 2) n))
+       else if !isWellFormedIRI id then .ok none else .ok (some (.iri id, n))) := by
+  unfold selfSubject
+  rw [h]
+  simp [primStr]
+
+theorem selfSubject_flat (name : β → Str) (hne : ∀ b, name b ≠ []) {t : Term β} (ht : C10.wfNode t = true)
+    {ms : List (Str × Exp)} (n : Nat) (h : JLD.lookup kId ms = some (primStr (JL.flatId name t))) :
+    selfSubject ms n = .ok (some (outT name t, n)) := by
+  rw [selfSubject_of_lookup n h]
+  cases t with
+  | iri v =>
+    have hv : JL.absIri v = true := by simpa [C10.wfNode] using ht
+    simp [JL.flatId, (abs_not_bnode hv).1, abs_wf hv, outT, Term.map]
+  | bnode b =>
+    simp [JL.flatId, JL.bnodeId, JL.cUnderscore, JL.cColon, hasBnodePrefix, stringBlankNode, hne b, outT, Term.map]
+  | lit _ _ _ => simp [C10.wfNode] at ht
+
+/-- the value of a flat property -/
+theorem decode_value (cfg : Cfg) (name : β → Str) (hne : ∀ b, name b ≠ []) (g s : Option T) (p : Str) {o : Term β}
+    (ho : C10.wfObj o = true) (hpl : plainOK o = true) (n : Nat) :
+    decodeElement cfg { graph := g, subj := s, prop := some p, rev := false } (expandFlatValue (JL.flatObj name o)) n =
+      .ok [⟨s, p, some (outT name o), g⟩] n := by
+  cases o with
+  | iri v =>
+    have e : expandFlatValue (JL.flatObj name (Term.iri v)) = .obj [(kId, primStr v)] := by
+      simp [JL.flatObj, expandFlatValue]
+    rw [e]
+    exact decode_ref cfg g s p v _ n (fun m => selfSubject_flat name hne (t := Term.iri v) (by simpa [C10.wfObj, C10.wfNode] using ho) m
+      (by simp [JLD.lookup, JL.flatId]))
+  | bnode b =>
+    have e : expandFlatValue (JL.flatObj name (Term.bnode b)) = .obj [(kId, primStr (JL.bnodeId name b))] := by
+      simp [JL.flatObj, expandFlatValue]
+    rw [e]
+    exact decode_ref cfg g s p _ _ n (fun m => selfSubject_flat name hne (t := Term.bnode b) rfl m
+      (by simp [JLD.lookup, JL.flatId]))
+  | lit lex dt lang =>
+    cases lang with
+    | none =>
+      have hdt : JL.absIri dt = true := by simpa [C10.wfObj] using ho
+      simp only [plainOK, Bool.and_eq_true, bne_iff_ne, ne_eq] at hpl
+      have e : expandFlatValue (JL.flatObj name (Term.lit lex dt none)) = .obj [(kType, primStr dt), (kValue, primStr lex)] := by
+        have c : ¬ (JL.kType = JL.kLanguage) := by decide
+        simp [JL.flatObj, expandFlatValue, c]
+      rw [e, decode_typed cfg g s p dt lex n hdt hpl.1 hpl.2]
+      rfl
+    | some l =>
+      simp only [C10.wfObj, Bool.and_eq_true, beq_iff_eq] at ho
+      have e : expandFlatValue (JL.flatObj name (Term.lit lex dt (some l))) = .obj [(kLanguage, primStr l), (kValue, primStr lex)] := by
+        simp [JL.flatObj, expandFlatValue]
+      rw [e, decode_lang cfg g s p l lex n (langOK_wf ho.2), ho.1]
+      rfl
+
+theorem members_flat (cfg : Cfg) (c : ECtx) (id p : Str) (v : Exp) (n : Nat) (hp : JL.absIri p = true) :
+    members cfg c [(kId, primStr id), (p, .arr [v])] n =
+      (decodeElement cfg { c with prop := some p } v n).andThen fun n1 => .ok [] n1 := by
+  have hk : keyProp kId = none := by decide
+  have h1 : members cfg c [(kId, primStr id), (p, .arr [v])] n = members cfg c [(p, .arr [v])] n := by
+    rw [primStr, members] <;> simp [hk]
+  rw [h1, members]
+  simp only [abs_keyProp hp, decodeItems, members]
+  cases decodeElement cfg { c with prop := some p } v n <;> simp [R.andThen]
+
+/-- a flat node object `{"@id": s, p: [o]}` among the items of the top level or of `@graph` -/
+theorem decode_node (cfg : Cfg) (name : β → Str) (hne : ∀ b, name b ≠ []) (g : Option T) {t : Triple β}
+    (hs : C10.wfNode t.s = true) (hp : JL.absIri t.p = true) (ho : C10.wfObj t.o = true) (hpl : plainOK t.o = true) (n : Nat) :
+    decodeElement cfg { graph := g, subj := none, prop := none, rev := false } (expandFlatNode (JL.flatNode name t)) n =
+      .ok [⟨some (outT name t.s), t.p, some (outT name t.o), g⟩] n := by
+  have e : expandFlatNode (JL.flatNode name t) =
+      .obj [(kId, primStr (JL.flatId name t.s)), (t.p, .arr [expandFlatValue (JL.flatObj name t.o)])] := by
+    simp [JL.flatNode, expandFlatNode]
+  rw [e]
+  have nk : ∀ k, k.head? = some 0x40 → kId ≠ k → noKey k [(kId, primStr (JL.flatId name t.s)), (t.p, .arr [expandFlatValue (JL.flatObj name t.o)])] :=
+    fun k hk hid => noKey_cons hid (noKey_cons (abs_ne_kw hp hk) (noKey_nil k))
+  rw [decodeElement]
+  have h2 := hasKey_noKey (nk kList (by decide) (by decide))
+  have hself := fun m => selfSubject_flat name hne hs (ms := [(kId, primStr (JL.flatId name t.s)), (t.p, .arr [expandFlatValue (JL.flatObj name t.o)])]) m
+    (by simp [JLD.lookup])
+  simp only [h2, Bool.false_eq_true, if_false, hself n]
+  rw [findReverse_noKey cfg _ _ _ (nk _ (by decide) (by decide)), andThen_ok_nil,
+    typeStage_noKey _ _ _ _ (nk _ (by decide) (by decide)), andThen_ok_nil]
+  have h3 : ∀ c m, findKeyArr cfg c kGraph [(kId, primStr (JL.flatId name t.s)), (t.p, .arr [expandFlatValue (JL.flatObj name t.o)])] m = .ok [] m :=
+    fun c m => findKeyArr_noKey cfg c _ _ m (nk _ (by decide) (by decide))
+  have h4 : ∀ c m, findKeyArr cfg c kIncluded [(kId, primStr (JL.flatId name t.s)), (t.p, .arr [expandFlatValue (JL.flatObj name t.o)])] m = .ok [] m :=
+    fun c m => findKeyArr_noKey cfg c _ _ m (nk _ (by decide) (by decide))
+  simp only [h3, h4, ite_self, andThen_ok_nil, members_flat cfg _ _ _ _ _ hp, Option.isNone_none, Bool.and_true]
+  rw [decode_value cfg name hne g (some (outT name t.s)) t.p ho hpl n]
+  simp [R.andThen, R.pre]
+
+/-- a top-level entry of `writeFlat`: exactly the quad it was written from -/
+theorem decode_entry (cfg : Cfg) (name : β → Str) (hne : ∀ b, name b ≠ []) {q : DQuad β} (h : C10.wfQuad q = true)
+    (hpl : plainOK q.t.o = true) (n : Nat) :
+    decodeElement cfg ECtx.root (expandFlatEntry (JL.flatEntry name q)) n = .ok [toRQ name q] n := by
+  obtain ⟨t, g⟩ := q
+  simp only [C10.wfQuad, Bool.and_eq_true] at h
+  obtain ⟨⟨⟨hs, hp⟩, ho⟩, hg⟩ := h
+  cases g with
+  | none =>
+    have e : expandFlatEntry (JL.flatEntry name ⟨t, none⟩) = expandFlatNode (JL.flatNode name t) := by
+      have c : ¬ (t.p = JL.kGraph) := abs_ne_kw hp (by decide)
+      simp [JL.flatEntry, JL.flatNode, expandFlatEntry, c]
+    rw [e]
+    exact decode_node cfg name hne none hs hp ho hpl n
+  | some gt =>
+    have e : expandFlatEntry (JL.flatEntry name ⟨t, some gt⟩) =
+        .obj [(kGraph, .arr [expandFlatNode (JL.flatNode name t)]), (kId, primStr (JL.flatId name gt))] := by
+      simp [JL.flatEntry, expandFlatEntry]
+    rw [e]
+    generalize hN : expandFlatNode (JL.flatNode name t) = N
+    have nk : ∀ k, kGraph ≠ k → kId ≠ k → noKey k [(kGraph, .arr [N]), (kId, primStr (JL.flatId name gt))] :=
+      fun k h1 h2 => noKey_cons h1 (noKey_cons h2 (noKey_nil k))
+    rw [decodeElement]
+    have h2 := hasKey_noKey (nk kList (by decide) (by decide))
+    have hself := fun m => selfSubject_flat name hne hg (ms := [(kGraph, .arr [N]), (kId, primStr (JL.flatId name gt))]) m
+      (by have c : kGraph ≠ kId := by decide
+          simp [JLD.lookup, c])
+    simp only [ECtx.root, h2, Bool.false_eq_true, if_false, hself n]
+    rw [findReverse_noKey cfg _ _ _ (nk _ (by decide) (by decide)), andThen_ok_nil,
+      typeStage_noKey _ _ _ _ (nk _ (by decide) (by decide)), andThen_ok_nil]
+    have hgw : (match outT name gt with
+                | .iri v => isWellFormedIRI v
+                | _ => true) = true := by
+      cases gt with
+      | iri v => simpa [outT, Term.map] using abs_wf (by simpa [C10.wfNode] using hg)
+      | bnode b => simp [outT, Term.map]
+      | lit _ _ _ => simp [C10.wfNode] at hg
+    have h4 : ∀ c m, findKeyArr cfg c kIncluded [(kGraph, .arr [N]), (kId, primStr (JL.flatId name gt))] m = .ok [] m :=
+      fun c m => findKeyArr_noKey cfg c _ _ m (nk _ (by decide) (by decide))
+    have h5 : ∀ c m, members cfg c [(kGraph, .arr [N]), (kId, primStr (JL.flatId name gt))] m = .ok [] m := by
+      intro c m
+      have k1 : keyProp kGraph = none := by decide
+      have k2 : keyProp kId = none := by decide
+      rw [members]
+      simp only [k1]
+      rw [primStr, members] <;> simp [k2, members]
+    rw [if_pos ?hc]
+    case hc =>
+      cases gt with
+      | iri v => simpa [outT, Term.map] using abs_wf (by simpa [C10.wfNode] using hg)
+      | bnode b => simp [outT, Term.map]
+      | lit _ _ _ => simp [C10.wfNode] at hg
+    rw [findKeyArr, if_pos rfl]
+    simp only [decodeItems]
+    simp only [Option.isNone_none, Bool.and_true]
+    subst hN
+    rw [decode_node cfg name hne (some (outT name gt)) hs hp ho hpl n]
+    simp [R.andThen, R.pre, h4, h5, toRQ, outT]
+
+theorem decodeItems_flat (cfg : Cfg) (name : β → Str) (hne : ∀ b, name b ≠ []) :
+    ∀ (d : List (DQuad β)) (n : Nat), C10.WFDataset d → NoUntaggedLangString d →
+      decodeItems cfg ECtx.root (d.map (fun q => expandFlatEntry (JL.flatEntry name q))) n = .ok (d.map (toRQ name)) n
+  | [], n, _, _ => by simp [decodeItems]
+  | q :: d, n, hw, hp => by
+    have ih := decodeItems_flat cfg name hne d n (fun q' hq' => hw q' (by simp [hq'])) (fun q' hq' => hp q' (by simp [hq']))
+    simp only [List.map_cons]
+    rw [decodeItems, decode_entry cfg name hne (hw q (by simp)) (hp q (by simp)) n]
+    simp only [R.andThen, ih, List.singleton_append]
+
+theorem run_flat (cfg : Cfg) (name : β → Str) (hne : ∀ b, name b ≠ []) (d : List (DQuad β))
+    (hw : C10.WFDataset d) (hp : NoUntaggedLangString d) :
+    run cfg (expandFlat (JL.writeFlat name d)) = .done (d.map (toRQ name)) none := by
+  have e : expandFlat (JL.writeFlat name d) = .arr (d.map (fun q => expandFlatEntry (JL.flatEntry name q))) := by
+    simp [JL.writeFlat, expandFlat, List.map_map, Function.comp_def]
+  unfold run decodeRoot
+  rw [e, decodeElement, decodeItems_flat cfg name hne d 0 hw hp]
 
 end RdfModel.Proofs.C10D
